@@ -865,8 +865,8 @@ theorem zip_gap (p : Option Cell) : ∀ l : List Cell,
     simp only [List.map_cons, List.cons_append, List.zip_cons_cons, gapPairs]
     rw [zip_gap (some v) rest]
 
-theorem notinPairs_eq (vs : List Cell) (hn : NoNone vs) : notinPairs vs = gapPairs Option.none vs := by
-  have hm : vs.map (fun c => if c = Cell.none then Option.none else some c) = vs.map some := by
+theorem notinPairs_eq (cfg : Cfg) (vs : List Cell) (hn : NoNone vs) : notinPairs cfg vs = gapPairs Option.none vs := by
+  have hm : vs.map (fun c => if c = Cell.none && !cfg.notinSentinel then Option.none else some c) = vs.map some := by
     apply List.map_congr_left
     intro c hc
     have := hn c hc
@@ -1042,7 +1042,7 @@ theorem compareBisect_spec (cfg : Cfg) (s : Seq) (xs : List Cell) (hsh : s.Shows
       obtain ⟨rs, e, hp⟩ := notin_ranges cfg s xs hsh lo hi (sortBy ltk vs) Option.none lo hok1 hsorted rfl
         (le_refl _) hok.le (fun v _ bl br hc => by have := hc.lo_bl; have := hc.bl_br; omega)
       refine ⟨rs, ?_, ?_⟩
-      · simp only [compareBisect, pySorted_ok vs hcmp, bind, Except.bind, notinPairs_eq _ hok1.vnn]
+      · simp only [compareBisect, pySorted_ok vs hcmp, bind, Except.bind, notinPairs_eq cfg _ hok1.vnn]
         exact e
       · apply hp.congr
         intro i _ _
@@ -1753,10 +1753,10 @@ theorem kwHere_spec (cfg : Cfg) (t : Table) (N : Nat) (hok : t.OK N) (lohis : Li
   -- a comparison with a value / collection
   have cmp_case : ∀ (op : Op) (a : ArgV), (condOf pos (c, arg)).test = .cmp op a →
       ∃ l, (if (t.indexes.contains c && decide (op ≠ Op.mtch)) = true then
-              (do let segs ← dictGet lohis c
-                  let rs ← segs.mapM (fun (p : Nat × Nat) => compareBisect cfg { base := b, sel := t.sel } p.1 p.2 op a)
-                  pure ((rs.flatMap id).flatMap rangeOf))
-            else compareScan cfg ((t.vcol c).take (t.m N)) op a) = Except.ok l ∧ Picks l 0 (t.m N) (kwP t pos (c, arg)) := by
+              (match kwBisect cfg { base := b, sel := t.sel } lohis c op a with
+               | .error .typeError => if cfg.bisectFallback then kwScan cfg { base := b, sel := t.sel } (t.m N) op a else .error .typeError
+               | r => r)
+            else kwScan cfg { base := b, sel := t.sel } (t.m N) op a) = Except.ok l ∧ Picks l 0 (t.m N) (kwP t pos (c, arg)) := by
     intro op a hcond
     have hshape := h.shape op a hcond
     have hnm : op ≠ Op.mtch := by rintro rfl; simp [argShape] at hshape
@@ -1767,7 +1767,7 @@ theorem kwHere_spec (cfg : Cfg) (t : Table) (N : Nat) (hok : t.OK N) (lohis : Li
       obtain ⟨rss, e2, hp⟩ := segs_picks (fun (p : Nat × Nat) => compareBisect cfg { base := b, sel := t.sel } p.1 p.2 op a)
         (fun i => argSat op a (cellAt (t.vcol c) i).key = true) segs 0 (t.m N) hsegs
         (fun p hp => compareBisect_spec cfg _ (t.vcol c) hshows p.1 p.2 op a hshape (hprobe p hp) hall hdup)
-      refine ⟨(rss.flatMap id).flatMap rangeOf, by simp only [e1, e2, bind, Except.bind, pure, Except.pure], ?_⟩
+      refine ⟨(rss.flatMap id).flatMap rangeOf, by simp only [kwBisect, e1, e2], ?_⟩
       apply hp.congr
       intro i _ hi
       have hv : NoNone (probesOf a) := by
@@ -1778,9 +1778,10 @@ theorem kwHere_spec (cfg : Cfg) (t : Table) (N : Nat) (hok : t.OK N) (lohis : Li
     · have hcon : (t.indexes.contains c && decide (op ≠ Op.mtch)) = false := by simp [hidx]
       simp only [hcon, Bool.false_eq_true, if_false]
       have htake : (t.vcol c).take (t.m N) = t.vcol c := by rw [← hlen]; exact List.take_length
+      simp only [kwScan, hshows.toList]
       rw [htake, compareScan_eq cfg (t.vcol c) op a hshape (h.scan hidx op a hcond)]
       exact scan_case (sat op a) (.cmp op a) (fun _ => rfl) hcond
-  simp only [kwHere, ecol, bind, Except.bind]
+  simp only [kwHere, ecol]
   cases arg with
   | fn p =>
     simp only [hshows.toList]
@@ -1789,10 +1790,8 @@ theorem kwHere_spec (cfg : Cfg) (t : Table) (N : Nat) (hok : t.OK N) (lohis : Li
     have hc := hcmp a rfl
     subst hc
     have hres : (resolveArg cfg comparison (Arg.val a)).2 = some (effOp comparison a, a) := rfl
-    simp only [hres, hshows.toList, pure, Except.pure]
-    have := cmp_case (effOp comparison a) a rfl
-    simp only [bind, Except.bind, pure, Except.pure] at this
-    exact this
+    simp only [hres]
+    exact cmp_case (effOp comparison a) a rfl
   | dict op a =>
     have hres : (resolveArg cfg comparison (Arg.dict op a)).2 = some (op, a) := by
       simp only [resolveArg]
@@ -1802,10 +1801,8 @@ theorem kwHere_spec (cfg : Cfg) (t : Table) (N : Nat) (hok : t.OK N) (lohis : Li
         have := h.notin a (by rw [hn.1])
         simp [this] at hn
       · rfl
-    simp only [hres, hshows.toList, pure, Except.pure]
-    have := cmp_case op a rfl
-    simp only [bind, Except.bind, pure, Except.pure] at this
-    exact this
+    simp only [hres]
+    exact cmp_case op a rfl
 
 
 /-! ## all keywords -/
@@ -2221,10 +2218,12 @@ theorem filterMap_ite (q : Nat → Bool) : ∀ l : List Nat,
   | x :: xs => by
     by_cases h : q x = true <;> simp [h, filterMap_ite q xs]
 
-theorem where_pred_eq_spec' (cfg : Cfg) (t : Table) (N : Nat) (hok : t.OK N) (hne : t.columns ≠ []) (p : RowPred)
+theorem where_pred_view' (cfg : Cfg) (t : Table) (N : Nat) (hok : t.OK N) (hne : t.columns ≠ []) (p : RowPred)
     (pos : Option Op) (kws : List (Nat × Arg)) (R : List (List Cell)) (hR : t.rows = .ok R) :
     ∃ t', t.pwhere cfg (some p) pos kws = .ok t' ∧ t'.rows = .ok (R.filter p.eval) ∧
-      t'.columns = t.columns ∧ t'.indexes = t.indexes ∧ t'.OK N := by
+      t'.columns = t.columns ∧ t'.indexes = t.indexes ∧ t'.OK N ∧ t'.data = t.data ∧
+      ∃ selection, StrictInc selection ∧ (∀ i ∈ selection, i < t.m N) ∧
+        t'.sel.idx N = selection.map (fun i => (t.sel.idx N).getD i 0) := by
   have hRe : R = (List.range (t.m N)).map t.rowAt := by
     have := hok.rows_eq hne
     rw [hR] at this
@@ -2243,7 +2242,7 @@ theorem where_pred_eq_spec' (cfg : Cfg) (t : Table) (N : Nat) (hok : t.OK N) (hn
   obtain ⟨sel', ecomp, hidx, hselok⟩ := composeSel_spec t.sel N hok.sel selection hsel.inc
     (fun i hi => by have := (hsel.mem i).mp hi; simpa [Table.m] using this.2.1)
   have hok' : Table.OK { t with sel := sel' } N := ⟨hok.len, hok.cols, hselok⟩
-  refine ⟨{ t with sel := sel' }, ?_, ?_, rfl, rfl, hok'⟩
+  refine ⟨{ t with sel := sel' }, ?_, ?_, rfl, rfl, hok', rfl, selection, hsel.inc, fun i hi => ((hsel.mem i).mp hi).2.1, hidx⟩
   · simp only [Table.pwhere, hR, bind, Except.bind, hselq, ecomp, pure, Except.pure]
   · have hm' : Table.m { t with sel := sel' } N = selection.length := by simp [Table.m, hidx]
     rw [Table.OK.rows_eq hok' hne, hm']
@@ -2257,6 +2256,13 @@ theorem where_pred_eq_spec' (cfg : Cfg) (t : Table) (N : Nat) (hok : t.OK N) (hn
       rw [rowAt_view t N hok sel' selection hidx (fun i hi => ((hsel.mem i).mp hi).2.1) k h1]
       simp [List.getD, List.getElem?_eq_getElem h1]
 
+
+theorem where_pred_eq_spec' (cfg : Cfg) (t : Table) (N : Nat) (hok : t.OK N) (hne : t.columns ≠ []) (p : RowPred)
+    (pos : Option Op) (kws : List (Nat × Arg)) (R : List (List Cell)) (hR : t.rows = .ok R) :
+    ∃ t', t.pwhere cfg (some p) pos kws = .ok t' ∧ t'.rows = .ok (R.filter p.eval) ∧
+      t'.columns = t.columns ∧ t'.indexes = t.indexes ∧ t'.OK N := by
+  obtain ⟨t', a, b, c, d, e, _⟩ := where_pred_view' cfg t N hok hne p pos kws R hR
+  exact ⟨t', a, b, c, d, e⟩
 
 /-! ## `_sub_lohis`: runs of equal keys in a sorted segment -/
 
@@ -2540,11 +2546,6 @@ theorem sortBlocks_slices (kf : Nat → Cell) (perm : List Nat) (lohis : List (N
   exact List.map_inj_left.mp this p hp
 
 /-! ### the lexicographic order on the processed columns -/
-
-/-- `K d x`: key of original row `x` in column `d`; lexicographic `<` over the columns `ds` -/
-def lexLtK (K : Nat → Nat → Key) : List Nat → Nat → Nat → Bool
-  | [], _, _ => false
-  | d :: ds, x, y => if (K d x).lt (K d y) then true else if (K d y).lt (K d x) then false else lexLtK K ds x y
 
 theorem lexLtK_agree (K : Nat → Nat → Key) : ∀ (ds : List Nat) (x y : Nat), (∀ d ∈ ds, K d x = K d y) →
     ∀ es, lexLtK K (ds ++ es) x y = lexLtK K es x y
@@ -3215,7 +3216,8 @@ theorem index_data_spec (cfg : Cfg) (t : Table) (N : Nat) (hok : t.OK N) (hsel :
       (∀ c b, lookupCol t.data c = .ok b → ∃ b', lookupCol t'.data c = .ok b' ∧ b'.length = N ∧
         (∀ i, i < N → (cellAt b' i).key = (cellAt b (perm.getD i 0)).key) ∧
         (c ∉ effIndex cfg t indx → b' = perm.map (cellAt b))) ∧
-      LexSortedK (K0 t) N (effIndex cfg t indx) perm ∧ TieStable (K0 t) N (effIndex cfg t indx) perm := by
+      LexSortedK (K0 t) N (effIndex cfg t indx) perm ∧ TieStable (K0 t) N (effIndex cfg t indx) perm ∧
+      t'.data.map (·.1) = t.data.map (·.1) := by
   have hlen : t.len = .ok N := by
     have := hok.len_eq hdata
     simpa [Table.m, hsel, Sel.idx] using this
@@ -3250,7 +3252,14 @@ theorem index_data_spec (cfg : Cfg) (t : Table) (N : Nat) (hok : t.OK N) (hsel :
       exact ⟨data, perm, by simp only [indexRun, hl]; exact e, hp, by simpa using hdd, by simpa using hss, by simpa using htie⟩
   obtain ⟨data, perm, eloop, hperm, hdi, hsorted, htieS⟩ := hloop
   have hpl : perm.length = N := by rw [hperm.length_eq]; simp
-  refine ⟨{ t with data := permuteOthers indx2 perm data, indexes := indx2 }, perm, ?_, hperm, rfl, rfl, hsel, ?_, ?_, hsorted, htieS⟩
+  refine ⟨{ t with data := permuteOthers indx2 perm data, indexes := indx2 }, perm, ?_, hperm, rfl, rfl, hsel, ?_, ?_, hsorted, htieS, ?_⟩
+  rotate_right
+  · simp only [permuteOthers, List.map_map]
+    rw [← hdi.keys]
+    apply List.map_congr_left
+    intro q _
+    simp only [Function.comp]
+    split <;> rfl
   · simp only [Table.index, h1, h2, hix, hdiff, hlen, Bool.false_eq_true, if_false]
     rw [eloop]
   · refine ⟨?_, ?_, by rw [hsel]; exact hsel ▸ hok.sel⟩
@@ -3431,7 +3440,7 @@ theorem index_rows_spec (cfg : Cfg) (t : Table) (N : Nat) (hok : t.OK N) (hsel :
     obtain ⟨c, hc⟩ := List.exists_mem_of_ne_nil _ hcne
     obtain ⟨b, hb⟩ := hok.cols c hc
     exact List.ne_nil_of_mem (lookupCol_mem hb)
-  obtain ⟨t', perm, e, hperm, hcolumns, hidx, hsel', hok', hcolsp, hsorted, htieS⟩ :=
+  obtain ⟨t', perm, e, hperm, hcolumns, hidx, hsel', hok', hcolsp, hsorted, htieS, _⟩ :=
     index_data_spec cfg t N hok hsel indx hne hdata hnd hdiff (fun d hd => (hcols d hd).2)
   have hm : t.m N = N := by simp [Table.m, hsel, Sel.idx]
   have hm' : t'.m N = N := by simp [Table.m, hsel', Sel.idx]
@@ -3573,9 +3582,6 @@ theorem index_spec' (cfg : Cfg) (t : Table) (indx : List Nat) (hwf : indexWF cfg
 
 
 /-! ## `_calc_lohis` on a table whose rows are in index order -/
-
-/-- key of the `x`-th row the table shows, in column `d` -/
-def Kt (t : Table) (d x : Nat) : Key := (cellAt (t.vcol d) x).key
 
 /-- the rows the table shows are in non-decreasing lexicographic order of its index columns, and the
 cells of every index column are stored, mutually comparable and not `None` -/
@@ -3952,12 +3958,12 @@ theorem kwOK_of_indexed (cfg : Cfg) (t : Table) (N : Nat) (hix : Indexed t N)
 
 /-- `where` on a table in index order (e.g. right after `index`, or a `where` result of such a
 table): the answer is the plain filter, and the result is again in index order -/
-theorem where_indexed' (cfg : Cfg) (t : Table) (N : Nat) (hok : t.OK N) (hix : Indexed t N) (pos : Option Op)
+theorem where_indexed_data' (cfg : Cfg) (t : Table) (N : Nat) (hok : t.OK N) (hix : Indexed t N) (pos : Option Op)
     (kws : List (Nat × Arg)) (hne : kws ≠ []) (hkw : ∀ kw ∈ kws, KwOKIdx cfg t (t.m N) pos kw) (hleak : NoLeak cfg kws)
     (R rs : List (List Cell)) (hR : t.rows = .ok R)
     (hspec : whereS { columns := t.columns, rows := R } (kws.map (condOf pos)) = .ok rs) :
     ∃ t', t.pwhere cfg Option.none pos kws = .ok t' ∧ t'.rows = .ok rs ∧
-      t'.columns = t.columns ∧ t'.indexes = t.indexes ∧ t'.OK N ∧ Indexed t' N := by
+      t'.columns = t.columns ∧ t'.indexes = t.indexes ∧ t'.OK N ∧ Indexed t' N ∧ t'.data = t.data := by
   have hvl : ∀ d ∈ t.indexes, (t.vcol d).length = t.m N := by
     intro d hd
     obtain ⟨b, hb⟩ := hix.stored d hd
@@ -3974,19 +3980,21 @@ theorem where_indexed' (cfg : Cfg) (t : Table) (N : Nat) (hok : t.OK N) (hix : I
   obtain ⟨lohis, el, hk⟩ := hlo
   obtain ⟨t', a1, a2, a3, a4, a5, a6, selection, b1, b2, b3⟩ :=
     where_eq_spec_aux cfg t N hok pos kws hne lohis el hk hleak R rs hR hspec
-  refine ⟨t', a1, a2, a3, a4, a6, ?_⟩
+  refine ⟨t', a1, a2, a3, a4, a6, ?_, a5⟩
   have : t' = { t with sel := t'.sel } := by
     cases t'; simp_all
   rw [this]
   exact indexed_view t N hok hix t'.sel selection b1 b2 b3
 
+theorem where_indexed' (cfg : Cfg) (t : Table) (N : Nat) (hok : t.OK N) (hix : Indexed t N) (pos : Option Op)
+    (kws : List (Nat × Arg)) (hne : kws ≠ []) (hkw : ∀ kw ∈ kws, KwOKIdx cfg t (t.m N) pos kw) (hleak : NoLeak cfg kws)
+    (R rs : List (List Cell)) (hR : t.rows = .ok R)
+    (hspec : whereS { columns := t.columns, rows := R } (kws.map (condOf pos)) = .ok rs) :
+    ∃ t', t.pwhere cfg Option.none pos kws = .ok t' ∧ t'.rows = .ok rs ∧
+      t'.columns = t.columns ∧ t'.indexes = t.indexes ∧ t'.OK N ∧ Indexed t' N := by
+  obtain ⟨t', a, b, c, d, e, f, _⟩ := where_indexed_data' cfg t N hok hix pos kws hne hkw hleak R rs hR hspec
+  exact ⟨t', a, b, c, d, e, f⟩
 
-/-- `Indexed` as a check -/
-def indexedB (t : Table) (N : Nat) : Bool :=
-  decide t.indexes.Nodup && t.indexes.all (fun d => isOk (lookupCol t.data d)) &&
-  allIn 0 (t.m N) (fun j => allIn 0 (t.m N) (fun i => !(decide (i < j)) || !(lexLtK (Kt t) t.indexes j i))) &&
-  t.indexes.all (fun d => allIn 0 (t.m N) (fun x => Kt t d x != Key.none &&
-    allIn 0 (t.m N) (fun y => (Kt t d x).comparable (Kt t d y))))
 
 theorem indexedB_sound {t : Table} {N : Nat} (h : indexedB t N = true) : Indexed t N := by
   simp only [indexedB, Bool.and_eq_true, decide_eq_true_eq, List.all_eq_true] at h
@@ -4041,13 +4049,17 @@ theorem cellAt_map_rows (rows : List (List Cell)) (k j : Nat) (hj : j < rows.len
     cellAt (rows.map (fun row => row.getD k .missing)) j = (rows[j]).getD k .missing := by
   simp [cellAt, List.getD, List.getElem?_map, List.getElem?_eq_getElem hj]
 
+/-- the stored list of every column of `t` is the beginning of the stored list `t'` has for it -/
+def PrefixOf (t t' : Table) : Prop :=
+  ∀ c ∈ t.columns, ∃ b x, lookupCol t.data c = .ok b ∧ lookupCol t'.data c = .ok (b ++ x)
+
 /-- **insert(rows)**: the table afterwards shows the old rows followed by the new ones -/
 theorem insert_rows_spec' (cfg : Cfg) (t : Table) (N : Nat) (hok : t.OK N) (hsel : t.sel = .all)
     (hnd : t.columns.Nodup) (hcne : t.columns ≠ []) (hkeys : ∀ p ∈ t.data, p.1 ∈ t.columns)
     (r : List Cell) (rs : List (List Cell)) (hlen : ∀ x ∈ r :: rs, x.length = t.columns.length)
     (R : List (List Cell)) (hR : t.rows = .ok R) :
-    ∃ t', t.insert cfg (.rows (r :: rs)) = .ok t' ∧ t'.rows = .ok (R ++ (r :: rs)) ∧
-      t'.columns = t.columns ∧ t'.indexes = t.indexes ∧ t'.OK (N + (r :: rs).length) := by
+    ∃ t', t.insertRaw cfg (.rows (r :: rs)) = .ok t' ∧ t'.rows = .ok (R ++ (r :: rs)) ∧
+      t'.columns = t.columns ∧ t'.indexes = t.indexes ∧ t'.OK (N + (r :: rs).length) ∧ PrefixOf t t' := by
   have hm : t.m N = N := by simp [Table.m, hsel, Sel.idx]
   have hRe : R = (List.range N).map t.rowAt := by
     have := hok.rows_eq hcne
@@ -4093,8 +4105,9 @@ theorem insert_rows_spec' (cfg : Cfg) (t : Table) (N : Nat) (hok : t.OK N) (hsel
     · intro c hc
       obtain ⟨b, _, _, hb'⟩ := hlook c hc
       exact ⟨_, hb'⟩
-  refine ⟨{ t with data := t.data.map f }, ?_, ?_, rfl, rfl, hok'⟩
-  · simp only [Table.insert, h1, h2, if_false]
+  refine ⟨{ t with data := t.data.map f }, ?_, ?_, rfl, rfl, hok', fun c hc => by
+    obtain ⟨b, hb, _, hb'⟩ := hlook c hc; exact ⟨b, _, hb, hb'⟩⟩
+  · simp only [Table.insertRaw, h1, h2, if_false]
     rfl
   · have hm' : Table.m { t with data := t.data.map f } (N + (r :: rs).length) = N + (r :: rs).length := by
       simp [Table.m, hsel, Sel.idx]
@@ -4295,7 +4308,7 @@ theorem insertCols_spec (t : Table) (N : Nat) (h : InsertOK t N) (cs : List (Nat
     (hcne : t.columns ++ newColsOf t.columns (cs.map (·.1)) ≠ [])
     (R : List (List Cell)) (hR : t.rows = .ok R) :
     ∃ t', insertCols t cs padLen = .ok t' ∧ t'.columns = (insertColsS t.columns R cs k).1 ∧
-      t'.rows = .ok (insertColsS t.columns R cs k).2 ∧ t'.indexes = t.indexes ∧ InsertOK t' (N + k) := by
+      t'.rows = .ok (insertColsS t.columns R cs k).2 ∧ t'.indexes = t.indexes ∧ InsertOK t' (N + k) ∧ PrefixOf t t' := by
   have hRe := h.rows_eq R hR
   have hlen := h.len_eq
   generalize hnc : newColsOf t.columns (cs.map (·.1)) = newCols at *
@@ -4405,7 +4418,8 @@ theorem insertCols_spec (t : Table) (N : Nat) (h : InsertOK t N) (cs : List (Nat
       simp only at hd
       rw [hd] at this
       simp at this
-  refine ⟨_, hrun, by simp [insertColsS, hnc], ?_, rfl, hok'⟩
+  refine ⟨_, hrun, by simp [insertColsS, hnc], ?_, rfl, hok', fun c hc => by
+    obtain ⟨b, hb, _, hb'⟩ := hold c hc; exact ⟨b, _, hb, hb'⟩⟩
   -- rows
   have hm' : Table.m { t with data := data2, columns := t.columns ++ newCols } (N + k) = N + k := by
     simp [Table.m, h.sel, Sel.idx]
@@ -4531,22 +4545,24 @@ theorem insert_mapping_rows' (cfg : Cfg) (t : Table) (N : Nat) (h : InsertOK t N
     (hk : ∀ q ∈ q0 :: cs, q.2.length = q0.2.length)
     (hcne : t.columns ++ newColsOf t.columns ((q0 :: cs).map (·.1)) ≠ [])
     (R : List (List Cell)) (hR : t.rows = .ok R) :
-    ∃ t', t.insert cfg (.cols (q0 :: cs)) = .ok t' ∧ t'.columns = (insertColsS t.columns R (q0 :: cs) q0.2.length).1 ∧
-      t'.rows = .ok (insertColsS t.columns R (q0 :: cs) q0.2.length).2 ∧ t'.indexes = t.indexes ∧ InsertOK t' (N + q0.2.length) := by
-  obtain ⟨t', e, a, b, c, d⟩ := insertCols_spec t N h (q0 :: cs) Option.none q0.2.length (by cases q0; rfl) hk hcne R hR
-  exact ⟨t', by simpa [Table.insert] using e, a, b, c, d⟩
+    ∃ t', t.insertRaw cfg (.cols (q0 :: cs)) = .ok t' ∧ t'.columns = (insertColsS t.columns R (q0 :: cs) q0.2.length).1 ∧
+      t'.rows = .ok (insertColsS t.columns R (q0 :: cs) q0.2.length).2 ∧ t'.indexes = t.indexes ∧ InsertOK t' (N + q0.2.length) ∧
+      PrefixOf t t' := by
+  obtain ⟨t', e, a, b, c, d, pf⟩ := insertCols_spec t N h (q0 :: cs) Option.none q0.2.length (by cases q0; rfl) hk hcne R hR
+  exact ⟨t', by simpa [Table.insertRaw] using e, a, b, c, d, pf⟩
 
 /-- **insert(dict rows)** -/
 theorem insert_dicts_rows' (cfg : Cfg) (t : Table) (N : Nat) (h : InsertOK t N) (d0 : List (Nat × Cell)) (ds : List (List (Nat × Cell)))
     (hpad : cfg.dictLen = true ∨ dictsToCols (d0 :: ds) ≠ [])
     (hcne : t.columns ++ newColsOf t.columns ((d0 :: ds).flatMap (fun d => d.map (·.1))) ≠ [])
     (R : List (List Cell)) (hR : t.rows = .ok R) :
-    ∃ t', t.insert cfg (.dicts (d0 :: ds)) = .ok t' ∧ t'.columns = (insertDictsS t.columns R (d0 :: ds)).1 ∧
-      t'.rows = .ok (insertDictsS t.columns R (d0 :: ds)).2 ∧ t'.indexes = t.indexes ∧ InsertOK t' (N + (d0 :: ds).length) := by
+    ∃ t', t.insertRaw cfg (.dicts (d0 :: ds)) = .ok t' ∧ t'.columns = (insertDictsS t.columns R (d0 :: ds)).1 ∧
+      t'.rows = .ok (insertDictsS t.columns R (d0 :: ds)).2 ∧ t'.indexes = t.indexes ∧ InsertOK t' (N + (d0 :: ds).length) ∧
+      PrefixOf t t' := by
   have hkeys := dictsToCols_keys (d0 :: ds)
   have hnc : newColsOf t.columns ((dictsToCols (d0 :: ds)).map (·.1)) = newColsOf t.columns ((d0 :: ds).flatMap (fun d => d.map (·.1))) := by
     rw [hkeys, newColsOf_dedup]
-  obtain ⟨t', e, a, b, c, d⟩ := insertCols_spec t N h (dictsToCols (d0 :: ds))
+  obtain ⟨t', e, a, b, c, d, pf⟩ := insertCols_spec t N h (dictsToCols (d0 :: ds))
     (if cfg.dictLen then some (d0 :: ds).length else if (dictsToCols (d0 :: ds)).isEmpty then some 1 else Option.none)
     (d0 :: ds).length (by
       by_cases hd : cfg.dictLen = true
@@ -4567,7 +4583,7 @@ theorem insert_dicts_rows' (cfg : Cfg) (t : Table) (N : Nat) (h : InsertOK t N) 
       obtain ⟨k, _, rfl⟩ := hq
       simp)
     (by rw [hnc]; exact hcne) R hR
-  refine ⟨t', by simpa [Table.insert] using e, ?_, ?_, c, d⟩
+  refine ⟨t', by simpa [Table.insertRaw] using e, ?_, ?_, c, d, pf⟩
   · rw [a]; simp only [insertColsS, insertDictsS, hnc]
   · rw [b]
     simp only [insertColsS, insertDictsS, hnc]
@@ -4751,10 +4767,10 @@ theorem InsertOK.rows_ok {t : Table} {N : Nat} (h : InsertOK t N) : ∃ R, t.row
   · exact ⟨[], by simp [Table.rows, hc, bind, Except.bind, pure, Except.pure, minLen]⟩
   · exact ⟨_, h.ok.rows_eq hc⟩
 
-theorem insert_eq_spec' (cfg : Cfg) (t : Table) (d : InsertData) (hwf : insertWF cfg t d = true) :
-    ∃ t' R, t.rows = .ok R ∧ t.insert cfg d = .ok t' ∧ t'.columns = (insertS t.columns R d).1 ∧
-      t'.rows = .ok (insertS t.columns R d).2 ∧ t'.indexes = t.indexes := by
-  simp only [insertWF, Bool.and_eq_true] at hwf
+theorem insertRaw_eq_spec' (cfg : Cfg) (t : Table) (d : InsertData) (hwf : insertRawWF cfg t d = true) :
+    ∃ t' R, t.rows = .ok R ∧ t.insertRaw cfg d = .ok t' ∧ t'.columns = (insertS t.columns R d).1 ∧
+      t'.rows = .ok (insertS t.columns R d).2 ∧ t'.indexes = t.indexes ∧ InsertOK t' (tableN t + d.size) ∧ PrefixOf t t' := by
+  simp only [insertRawWF, Bool.and_eq_true] at hwf
   obtain ⟨h0, hd⟩ := hwf
   have hok := insertOKB_sound h0
   obtain ⟨R, hR⟩ := hok.rows_ok
@@ -4766,8 +4782,33 @@ theorem insert_eq_spec' (cfg : Cfg) (t : Table) (d : InsertData) (hwf : insertWF
     | nil => simp at h1
     | cons r rs =>
       have hcne : t.columns ≠ [] := by intro e; simp [e] at h2
-      obtain ⟨t', a, b, c, dd, _⟩ := insert_rows_spec' cfg t (tableN t) hok.ok hok.sel h3 hcne hok.keys r rs h4 R hR
-      exact ⟨t', R, hR, a, by simp [insertS, c], by simpa [insertS] using b, dd⟩
+      obtain ⟨t', a, b, c, dd, ok', pf⟩ := insert_rows_spec' cfg t (tableN t) hok.ok hok.sel h3 hcne hok.keys r rs h4 R hR
+      refine ⟨t', R, hR, a, by simp [insertS, c], by simpa [insertS] using b, dd, ?_, pf⟩
+      refine ⟨ok', ?_, ?_, ?_⟩
+      · -- insert of rows keeps sel/keys: read them off the computed table
+        simp only [Table.insertRaw] at a
+        have h1' : ¬ (r.length ≠ t.columns.length) := by simpa using h4 r (by simp)
+        have h2' : ¬ ((rs.all (fun r' => r'.length == t.columns.length)) = false) := by
+          simp only [Bool.not_eq_false, List.all_eq_true, beq_iff_eq]; exact fun x hx => h4 x (by simp [hx])
+        simp only [h1', h2', if_false] at a
+        cases a; exact hok.sel
+      · simp only [Table.insertRaw] at a
+        have h1' : ¬ (r.length ≠ t.columns.length) := by simpa using h4 r (by simp)
+        have h2' : ¬ ((rs.all (fun r' => r'.length == t.columns.length)) = false) := by
+          simp only [Bool.not_eq_false, List.all_eq_true, beq_iff_eq]; exact fun x hx => h4 x (by simp [hx])
+        simp only [h1', h2', if_false] at a
+        cases a
+        intro p hp
+        simp only [List.mem_map] at hp
+        obtain ⟨q, hq, rfl⟩ := hp
+        have := hok.keys q hq
+        split <;> exact this
+      · intro hd'
+        exfalso
+        obtain ⟨c0, hc0⟩ := List.exists_mem_of_ne_nil _ hcne
+        obtain ⟨b0, hb0⟩ := ok'.cols c0 (by rw [c]; exact hc0)
+        have := lookupCol_mem hb0
+        rw [hd'] at this; simp at this
   | cols cs =>
     cases cs with
     | nil => simp at hd
@@ -4776,8 +4817,8 @@ theorem insert_eq_spec' (cfg : Cfg) (t : Table) (d : InsertData) (hwf : insertWF
       obtain ⟨h1, h2⟩ := hd
       have hcne : t.columns ++ newColsOf t.columns ((q0 :: cs).map (·.1)) ≠ [] := by
         intro e; rw [e] at h2; simp at h2
-      obtain ⟨t', a, b, c, dd, _⟩ := insert_mapping_rows' cfg t (tableN t) hok q0 cs h1 hcne R hR
-      exact ⟨t', R, hR, a, by simpa [insertS] using b, by simpa [insertS] using c, dd⟩
+      obtain ⟨t', a, b, c, dd, ok', pf⟩ := insert_mapping_rows' cfg t (tableN t) hok q0 cs h1 hcne R hR
+      exact ⟨t', R, hR, a, by simpa [insertS] using b, by simpa [insertS] using c, dd, ok', pf⟩
   | dicts ds =>
     simp only [Bool.and_eq_true, Bool.not_eq_true', Bool.or_eq_true] at hd
     obtain ⟨⟨h1, h2⟩, h3⟩ := hd
@@ -4790,8 +4831,8 @@ theorem insert_eq_spec' (cfg : Cfg) (t : Table) (d : InsertData) (hwf : insertWF
         rcases h2 with h2 | h2
         · exact Or.inl h2
         · right; intro e; rw [e] at h2; simp at h2
-      obtain ⟨t', a, b, c, dd, _⟩ := insert_dicts_rows' cfg t (tableN t) hok d0 ds hpad hcne R hR
-      exact ⟨t', R, hR, a, by simpa [insertS] using b, by simpa [insertS] using c, dd⟩
+      obtain ⟨t', a, b, c, dd, ok', pf⟩ := insert_dicts_rows' cfg t (tableN t) hok d0 ds hpad hcne R hR
+      exact ⟨t', R, hR, a, by simpa [insertS] using b, by simpa [insertS] using c, dd, ok', pf⟩
 
 /-- `insertS` respects "equal up to `==`" -/
 theorem insertS_congr (columns : List Nat) {R S : List (List Cell)} (h : List.Forall₂ KeyEq R S) (d : InsertData) :
@@ -4844,22 +4885,396 @@ theorem effIndex_eq_spec {cfg : Cfg} {t : Table} {indx : List Nat} (h : (effInde
   all_goals simp only [hx] at h ⊢
   all_goals first | rfl | exact (dedupNat_of_nodup _ (by simpa using h)).symm
 
+/-! ## `insert` keeps an indexed table in index order (P13 repair) -/
+
+/-- lexicographic `<` of rows `i`, `j` over column lists -/
+def lexLtC : List (List Cell) → Nat → Nat → Bool
+  | [], _, _ => false
+  | c :: rest, i, j =>
+    if (cellAt c i).key.lt (cellAt c j).key then true
+    else if (cellAt c j).key.lt (cellAt c i).key then false else lexLtC rest i j
+
+/-- with comparable cells the row comparison never gives up, and says `le` exactly when row `j` is not
+smaller than row `i` -/
+theorem rowOrd_spec : ∀ (cols : List (List Cell)) (i j : Nat),
+    (∀ c ∈ cols, (cellAt c i).key.comparable (cellAt c j).key = true) →
+    rowOrd cols i j = (if lexLtC cols j i then Ord3.gt else Ord3.le)
+  | [], _, _, _ => rfl
+  | c :: rest, i, j, h => by
+    have hc := h c (by simp)
+    have hc' : (cellAt c j).key.comparable (cellAt c i).key = true := by rw [Key.comparable_symm]; exact hc
+    simp only [rowOrd, pyLt, hc, hc', if_true, lexLtC]
+    by_cases h1 : (cellAt c i).key.lt (cellAt c j).key = true
+    · simp [h1, Key.lt_asymm _ _ h1]
+    · simp only [Bool.not_eq_true] at h1
+      simp only [h1]
+      by_cases h2 : (cellAt c j).key.lt (cellAt c i).key = true
+      · simp [h2]
+      · simp only [Bool.not_eq_true] at h2
+        simp only [h2, Bool.false_eq_true, if_false]
+        exact rowOrd_spec rest i j (fun c' hc'' => h c' (by simp [hc'']))
+
+theorem tailOrd_spec (cols : List (List Cell)) : ∀ (k i : Nat), 0 < i →
+    (∀ x, i - 1 ≤ x → x < i + k → ∀ y, i - 1 ≤ y → y < i + k → ∀ c ∈ cols, (cellAt c x).key.comparable (cellAt c y).key = true) →
+    (tailOrd cols k i = .le ∧ ∀ x, i ≤ x → x < i + k → lexLtC cols x (x - 1) = false) ∨
+    (tailOrd cols k i = .gt ∧ ∃ x, i ≤ x ∧ x < i + k ∧ lexLtC cols x (x - 1) = true)
+  | 0, i, _, _ => Or.inl ⟨rfl, fun x h1 h2 => by omega⟩
+  | k + 1, i, hi, hc => by
+    have hr := rowOrd_spec cols (i - 1) i (fun c hcm => hc (i - 1) (le_refl _) (by omega) i (by omega) (by omega) c hcm)
+    simp only [tailOrd, hr]
+    by_cases hlt : lexLtC cols i (i - 1) = true
+    · simp only [hlt, if_true]
+      exact Or.inr ⟨trivial, i, le_refl _, by omega, hlt⟩
+    · simp only [hlt]
+      simp only [Bool.not_eq_true] at hlt
+      rcases tailOrd_spec cols k (i + 1) (by omega) (fun x h1 h2 y h3 h4 c hcm => hc x (by omega) (by omega) y (by omega) (by omega) c hcm)
+        with ⟨e, hall⟩ | ⟨e, x, h1, h2, h3⟩
+      · left
+        refine ⟨e, fun x h1 h2 => ?_⟩
+        by_cases hx : x = i
+        · subst hx; exact hlt
+        · exact hall x (by omega) (by omega)
+      · right
+        exact ⟨e, x, by omega, by omega, h3⟩
+
+theorem lexLtC_eq_lexLtK (t : Table) : ∀ (ds : List Nat) (i j : Nat),
+    lexLtC (ds.map t.vcol) i j = lexLtK (Kt t) ds i j
+  | [], _, _ => rfl
+  | d :: ds, i, j => by
+    simp only [List.map_cons, lexLtC, lexLtK, Kt, lexLtC_eq_lexLtK t ds i j]
+    rfl
+
+/-- pairwise order of the first `N` rows and order of every adjacent pair from `N-1` on give pairwise order -/
+theorem sorted_extend (K : Nat → Nat → Key) (ds : List Nat) (N M : Nat)
+    (hold : ∀ i j, i < j → j < N → lexLtK K ds j i = false)
+    (hadj : ∀ x, N ≤ x → x < M → 0 < x → lexLtK K ds x (x - 1) = false) :
+    ∀ i j, i < j → j < M → lexLtK K ds j i = false := by
+  intro i j
+  induction j with
+  | zero => intro h; omega
+  | succ j ih =>
+    intro hij hj
+    by_cases hjN : j + 1 < N
+    · exact hold i (j + 1) hij hjN
+    · have hstep := hadj (j + 1) (by omega) hj (by omega)
+      simp only [Nat.add_sub_cancel] at hstep
+      by_cases hi : i = j
+      · subst hi; exact hstep
+      · exact lexLtK_le_trans K ds i j (j + 1) (ih (by omega) (by omega)) hstep
+
+
+theorem sortBy_sorted_id {α : Type} (lt : α → α → Bool) : ∀ l : List α, l.Pairwise (fun a b => lt b a = false) → sortBy lt l = l
+  | [], _ => rfl
+  | x :: xs, h => by
+    rw [List.pairwise_cons] at h
+    simp only [sortBy, sortBy_sorted_id lt xs h.2]
+    cases xs with
+    | nil => rfl
+    | cons y ys => simp [insertBy, h.1 y (by simp)]
+
+theorem idxCellsOKB_sound {t : Table} {N : Nat} (h : idxCellsOKB t N = true) :
+    (∀ d ∈ t.indexes, ∀ x y, x < t.m N → y < t.m N → (Kt t d x).comparable (Kt t d y) = true) ∧
+    (∀ d ∈ t.indexes, ∀ x, x < t.m N → Kt t d x ≠ .none) := by
+  simp only [idxCellsOKB, List.all_eq_true] at h
+  constructor
+  · intro d hd x y hx hy
+    have := (allIn_iff _ _ _).mp (h d hd) x (Nat.zero_le _) hx
+    simp only [Bool.and_eq_true] at this
+    exact (allIn_iff _ _ _).mp this.2 y (Nat.zero_le _) hy
+  · intro d hd x hx
+    have := (allIn_iff _ _ _).mp (h d hd) x (Nat.zero_le _) hx
+    simp only [Bool.and_eq_true] at this
+    simpa using this.1
+
+theorem mem_insertS_cols (columns : List Nat) (R : List (List Cell)) (d : InsertData) (c : Nat) (hc : c ∈ columns) :
+    c ∈ (insertS columns R d).1 := by
+  cases d with
+  | rows rs => exact hc
+  | dicts ds =>
+    simp only [insertS]
+    split
+    · exact hc
+    · simp only [insertDictsS]; exact List.mem_append_left _ hc
+  | cols cs =>
+    cases cs with
+    | nil => exact hc
+    | cons q cs => simp only [insertS, insertColsS]; exact List.mem_append_left _ hc
+
+/-- rows of a table in terms of its columns: the lexicographic order of two rows -/
+theorem lexLt_rowAt (t : Table) (hsel : t.sel = .all) (ds : List Nat) (hds : ∀ d ∈ ds, d ∈ t.columns) (i j : Nat) :
+    lexLt (idxPositions t.columns ds) (t.rowAt j) (t.rowAt i) = lexLtK (Kt t) ds j i := by
+  have := lexLt_rows_gen t (Kt t) (List.range (max i j + 1)) i j ds (by
+    intro d hd
+    refine ⟨hds d hd, ?_, ?_⟩
+    · rw [getD_range _ i (by omega)]; rfl
+    · rw [getD_range _ j (by omega)]; rfl) ds (fun d hd => hd)
+  rw [getD_range _ i (by omega), getD_range _ j (by omega)] at this
+  exact this
+
+
+/-- the second half of the repaired `insert`: what happens to the table `t'` the rows were appended to -/
+theorem keep_order (cfg : Cfg) (t t' : Table) (N N' : Nat) (hNN : N ≤ N')
+    (hok : InsertOK t N) (hix : Indexed t N) (hne : t.indexes ≠ []) (hsub : ∀ c ∈ t.indexes, c ∈ t.columns)
+    (hok' : InsertOK t' N') (hpre : PrefixOf t t') (hidx : t'.indexes = t.indexes) (hcols : ∀ c ∈ t.columns, c ∈ t'.columns)
+    (hcells : idxCellsOKB t' N' = true) (R' : List (List Cell)) (hR' : t'.rows = .ok R') :
+    ∃ t'', (match t'.inIndexOrder (N - 1) with
+        | .le => Except.ok t'
+        | .cannot => .ok { t' with indexes := [] }
+        | .gt =>
+          match Table.index cfg { t' with indexes := [] } t'.indexes with
+          | .ok t'' => .ok t''
+          | .error .typeError => .ok { t' with indexes := [] }
+          | .error e => .error e) = .ok t'' ∧
+      t''.columns = t'.columns ∧ t''.indexes = t.indexes ∧ InsertOK t'' N' ∧ Indexed t'' N' ∧
+      ∃ R'', t''.rows = .ok R'' ∧
+        R''.map (List.map Cell.key) = (indexS (idxPositions t'.columns t.indexes) R').map (List.map Cell.key) := by
+  have hm : t.m N = N := by simp [Table.m, hok.sel, Sel.idx]
+  have hm' : t'.m N' = N' := by simp [Table.m, hok'.sel, Sel.idx]
+  obtain ⟨hcmp, hnn⟩ := idxCellsOKB_sound hcells
+  rw [hm', hidx] at hcmp hnn
+  -- the old part of every index column is unchanged
+  have hKpre : ∀ d ∈ t.indexes, ∀ x, x < N → Kt t' d x = Kt t d x := by
+    intro d hd x hx
+    obtain ⟨b, y, e1, e2⟩ := hpre d (hsub d hd)
+    have hbl : b.length = N := hok.ok.len _ (lookupCol_mem e1)
+    simp only [Kt, vcol_all t hok.sel, vcol_all t' hok'.sel, Table.base, e1, e2]
+    rw [cellAt_append_left b y x (by omega)]
+  have hstored' : ∀ d ∈ t.indexes, ∃ b, lookupCol t'.data d = .ok b := by
+    intro d hd
+    obtain ⟨b, y, _, e2⟩ := hpre d (hsub d hd)
+    exact ⟨_, e2⟩
+  have hdne : t'.data ≠ [] := by
+    obtain ⟨d, hd⟩ := List.exists_mem_of_ne_nil _ hne
+    obtain ⟨b, hb⟩ := hstored' d hd
+    exact List.ne_nil_of_mem (lookupCol_mem hb)
+  have hlen' : t'.len = .ok N' := hok'.len_eq
+  have hR'e := hok'.rows_eq R' hR'
+  have hcne' : t'.columns ≠ [] := by
+    obtain ⟨d, hd⟩ := List.exists_mem_of_ne_nil _ hne
+    exact List.ne_nil_of_mem (hcols d (hsub d hd))
+  -- the columns `_in_index_order` looks at
+  have hio : t'.inIndexOrder (N - 1) = tailOrd (t.indexes.map t'.vcol) (N' - (N - 1 + 1)) (N - 1 + 1) := by
+    unfold Table.inIndexOrder
+    rw [hlen', hidx]
+    simp only
+    congr 1
+    apply List.map_congr_left
+    intro c _
+    rw [vcol_all t' hok'.sel]; rfl
+  have hold : ∀ i j, i < j → j < N → lexLtK (Kt t') t.indexes j i = false := by
+    intro i j hij hj
+    rw [lexLtK_congr (Kt t') (Kt t) t.indexes j i j i (fun d hd => ⟨hKpre d hd j hj, hKpre d hd i (by omega)⟩)]
+    have := hix.sorted i j hij (by rw [hm]; exact hj)
+    exact this
+  have hindexed_of_sorted : (∀ i j, i < j → j < N' → lexLtK (Kt t') t.indexes j i = false) → Indexed t' N' := by
+    intro hs
+    refine ⟨by rw [hidx]; exact hix.nodup, by rw [hidx]; exact hstored', ?_, ?_, ?_⟩
+    · intro i j hij hj; rw [hm'] at hj; rw [hidx]; exact hs i j hij hj
+    · intro d hd x y hx hy; rw [hm'] at hx hy; rw [hidx] at hd; exact hcmp d hd x y hx hy
+    · intro d hd x hx; rw [hm'] at hx; rw [hidx] at hd; exact hnn d hd x hx
+  have hrowsK : ∀ i j, i < N' → j < N' → lexLt (idxPositions t'.columns t.indexes) (R'.getD j []) (R'.getD i [])
+      = lexLtK (Kt t') t.indexes j i := by
+    intro i j hi hj
+    rw [hR'e]
+    simp only [List.getD, List.getElem?_map, List.getElem?_range hi, List.getElem?_range hj, Option.map_some, Option.getD_some]
+    exact lexLt_rowAt t' hok'.sel t.indexes (fun d hd => hcols d (hsub d hd)) i j
+  rw [hio]
+  -- the outcome of the look at the tail
+  have htail := tailOrd_spec (t.indexes.map t'.vcol) (N' - (N - 1 + 1)) (N - 1 + 1) (by omega)
+  by_cases hk : N' - (N - 1 + 1) = 0
+  · -- nothing to look at
+    rw [hk]
+    simp only [tailOrd]
+    have hs : ∀ i j, i < j → j < N' → lexLtK (Kt t') t.indexes j i = false :=
+      sorted_extend (Kt t') t.indexes N N' hold (fun x h1 h2 h3 => by omega)
+    refine ⟨t', rfl, rfl, hidx, hok', hindexed_of_sorted hs, R', hR', ?_⟩
+    rw [indexS, sortBy_sorted_id]
+    rw [List.pairwise_iff_getElem]
+    intro i j hi hj hij
+    have hl : R'.length = N' := by rw [hR'e]; simp
+    have := hrowsK i j (by omega) (by omega)
+    simp only [List.getD, List.getElem?_eq_getElem hi, List.getElem?_eq_getElem hj, Option.getD_some] at this
+    rw [this]; exact hs i j hij (by omega)
+  · have hend : N - 1 + 1 + (N' - (N - 1 + 1)) = N' := by omega
+    rcases htail (by
+        intro x h1 h2 y h3 h4 c hc
+        rw [List.mem_map] at hc
+        obtain ⟨d, hd, rfl⟩ := hc
+        exact hcmp d hd x y (by omega) (by omega)) with ⟨e, hall⟩ | ⟨e, _⟩
+    · rw [e]
+      simp only
+      have hs : ∀ i j, i < j → j < N' → lexLtK (Kt t') t.indexes j i = false :=
+        sorted_extend (Kt t') t.indexes N N' hold (fun x h1 h2 h3 => by
+          rw [← lexLtC_eq_lexLtK]; exact hall x (by omega) (by omega))
+      refine ⟨t', rfl, rfl, hidx, hok', hindexed_of_sorted hs, R', hR', ?_⟩
+      rw [indexS, sortBy_sorted_id]
+      rw [List.pairwise_iff_getElem]
+      intro i j hi hj hij
+      have hl : R'.length = N' := by rw [hR'e]; simp
+      have := hrowsK i j (by omega) (by omega)
+      simp only [List.getD, List.getElem?_eq_getElem hi, List.getElem?_eq_getElem hj, Option.getD_some] at this
+      rw [this]; exact hs i j hij (by omega)
+    · -- out of order: sorted again by `index`
+      rw [e]
+      simp only
+      have hok0 : Table.OK { t' with indexes := [] } N' := ⟨hok'.ok.len, hok'.ok.cols, hok'.ok.sel⟩
+      have heff : effIndex cfg { t' with indexes := [] } t'.indexes = t.indexes := by
+        rw [hidx]
+        have hf : t.indexes.filter (fun c => t'.columns.contains c) = t.indexes := by
+          apply List.filter_eq_self.mpr
+          intro c hc; simpa using hcols c (hsub c hc)
+        simp only [effIndex, hf]
+        split
+        · exact dedupNat_of_nodup _ hix.nodup
+        · rfl
+      have hidxne : t'.indexes ≠ [] := by rw [hidx]; exact hne
+      have hicol : ∀ d ∈ effIndex cfg { t' with indexes := [] } t'.indexes,
+          d ∈ Table.columns { t' with indexes := [] } ∧ IdxColOK { t' with indexes := [] } N' d := by
+        intro d hd
+        rw [heff] at hd
+        obtain ⟨b, hb⟩ := hstored' d hd
+        refine ⟨hcols d (hsub d hd), ⟨⟨b, hb, hok'.ok.len _ (lookupCol_mem hb)⟩, ?_, ?_⟩⟩
+        · intro x y hx hy
+          have := hcmp d hd x y hx hy
+          simpa [K0, Kt, vcol_all t' hok'.sel, Table.base] using this
+        · intro x hx
+          have := hnn d hd x hx
+          simpa [K0, Kt, vcol_all t' hok'.sel, Table.base] using this
+      obtain ⟨t1, e1, _, hi1⟩ := index_indexed cfg { t' with indexes := [] } N' hok0 hok'.sel t'.indexes hidxne hdne
+        (by rw [heff]; exact hix.nodup) (by rw [heff]; exact fun h => hne h.symm) (fun d hd => (hicol d hd).2)
+      obtain ⟨t2, perm, R0, R2, e2, hR0, hR2, c1, c2, _, _, _, _, _, _, _, c13⟩ :=
+        index_rows_spec cfg { t' with indexes := [] } N' hok0 hok'.sel t'.indexes hidxne hcne'
+          (by rw [heff]; exact hix.nodup) (by rw [heff]; exact fun h => hne h.symm) hicol
+      have ht : t1 = t2 := by rw [e1] at e2; exact Except.ok.inj e2
+      subst ht
+      have hR0' : R0 = R' := by
+        have : Table.rows { t' with indexes := [] } = t'.rows := rfl
+        rw [this, hR'] at hR0; exact (Except.ok.inj hR0).symm
+      subst hR0'
+      obtain ⟨t3, _, e3, _, hc3, _, hsel1, hok1, _, _, _, hkeys3⟩ := index_data_spec cfg { t' with indexes := [] } N' hok0 hok'.sel t'.indexes hidxne hdne
+        (by rw [heff]; exact hix.nodup) (by rw [heff]; exact fun h => hne h.symm) (fun d hd => (hicol d hd).2)
+      have ht3 : t1 = t3 := by rw [e1] at e3; exact Except.ok.inj e3
+      subst ht3
+      have hio1 : InsertOK t1 N' := by
+        refine ⟨hok1, hsel1, ?_, ?_⟩
+        · intro p hp
+          have : p.1 ∈ t1.data.map (·.1) := List.mem_map_of_mem hp
+          rw [hkeys3, List.mem_map] at this
+          obtain ⟨q, hq, hqe⟩ := this
+          rw [hc3, ← hqe]
+          exact hok'.keys q hq
+        · intro h0
+          exfalso
+          have : t1.data.map (·.1) = [] := by rw [h0]; rfl
+          rw [hkeys3] at this
+          exact hdne (List.map_eq_nil_iff.mp this)
+      refine ⟨t1, by rw [e1], c1, by rw [c2, heff], hio1, hi1, R2, hR2, ?_⟩
+      rw [c13, heff]
+
+
+theorem InsertOK.tableN_eq {t : Table} {N : Nat} (h : InsertOK t N) : tableN t = N := by
+  cases hd : t.data with
+  | nil => simp [tableN, hd, h.empty hd]
+  | cons q rest =>
+    obtain ⟨c, b⟩ := q
+    simp only [tableN, hd]
+    exact h.ok.len (c, b) (by rw [hd]; simp)
+
+theorem insertRawWF_nonempty {cfg : Cfg} {t : Table} {d : InsertData} (h : insertRawWF cfg t d = true) : d.isEmpty = false := by
+  simp only [insertRawWF, Bool.and_eq_true] at h
+  obtain ⟨_, h⟩ := h
+  cases d with
+  | rows rs => simp only [Bool.and_eq_true, Bool.not_eq_true'] at h; exact h.1.1.1
+  | dicts ds => simp only [Bool.and_eq_true, Bool.not_eq_true'] at h; exact h.1.1
+  | cols cs =>
+    cases cs with
+    | nil => simp at h
+    | cons q r => rfl
+
+/-- **insert** (all three shapes, indexed or not): the normalised rows are appended, and a table that
+was in index order is in index order afterwards -/
+theorem insert_eq_spec' (cfg : Cfg) (t : Table) (d : InsertData) (hwf : insertWF cfg t d = true) :
+    ∃ t' R R', t.rows = .ok R ∧ t.insert cfg d = .ok t' ∧ t'.columns = (insertSpec cfg t.columns t.indexes R d).1 ∧
+      t'.rows = .ok R' ∧ R'.map (List.map Cell.key) = (insertSpec cfg t.columns t.indexes R d).2.map (List.map Cell.key) ∧
+      t'.indexes = t.indexes ∧ InsertOK t' (tableN t + d.size) ∧
+      (cfg.resortInsert = true → t.indexes ≠ [] → Indexed t' (tableN t + d.size)) ∧
+      ((cfg.resortInsert = false ∨ t.indexes = []) → R' = (insertS t.columns R d).2) := by
+  simp only [insertWF, Bool.and_eq_true] at hwf
+  obtain ⟨hraw, hrest⟩ := hwf
+  have hne := insertRawWF_nonempty hraw
+  obtain ⟨t', R, hR, e, c1, c2, c3, hok', hpre⟩ := insertRaw_eq_spec' cfg t d hraw
+  have hok : InsertOK t (tableN t) := by
+    simp only [insertRawWF, Bool.and_eq_true] at hraw
+    exact insertOKB_sound hraw.1
+  by_cases hcond : (cfg.resortInsert && !d.isEmpty && !t'.indexes.isEmpty) = true
+  · -- the repaired code looks at the new rows
+    simp only [hne, Bool.not_false, Bool.and_true, Bool.and_eq_true, Bool.not_eq_true', c3] at hcond
+    obtain ⟨hfix, hie⟩ := hcond
+    have hine : t.indexes ≠ [] := by intro h; simp [h] at hie
+    have hc2 : (cfg.resortInsert && !t.indexes.isEmpty) = true := by simp [hfix, hie]
+    simp only [hc2, Bool.not_true, Bool.false_or, Bool.and_eq_true, List.all_eq_true] at hrest
+    obtain ⟨⟨hsub, hixb⟩, hcells⟩ := hrest
+    rw [e] at hcells
+    simp only [hok'.tableN_eq] at hcells
+    have hix := indexedB_sound hixb
+    have hsub' : ∀ c ∈ t.indexes, c ∈ t.columns := fun c hc => by simpa using hsub c hc
+    have hcols : ∀ c ∈ t.columns, c ∈ t'.columns := by
+      intro c hc
+      obtain ⟨b, x, _, e2⟩ := hpre c hc
+      exact hok'.keys _ (lookupCol_mem e2)
+    obtain ⟨t'', e2, d1, d2, d3, d4, R'', d5, d6⟩ := keep_order cfg t t' (tableN t) (tableN t + d.size) (by omega)
+      hok hix hine hsub' hok' hpre c3 hcols hcells _ c2
+    have hspec : insertSpec cfg t.columns t.indexes R d =
+        ((insertS t.columns R d).1, indexS (idxPositions (insertS t.columns R d).1 t.indexes) (insertS t.columns R d).2) := by
+      simp [insertSpec, hfix, hne, hie]
+    refine ⟨t'', R, R'', hR, ?_, ?_, d5, ?_, d2, d3, fun _ _ => d4, ?_⟩
+    · simp only [Table.insert, e, hfix, hne, c3, hie, Bool.not_false, Bool.and_true, if_true, hok.len_eq]
+      rw [c3] at e2; exact e2
+    · rw [hspec, d1, c1]
+    · rw [hspec, d6, c1]
+    · rintro (h | h)
+      · rw [hfix] at h; exact absurd h (by simp)
+      · exact absurd h hine
+  · have hspec : insertSpec cfg t.columns t.indexes R d = insertS t.columns R d := by
+      simp only [c3] at hcond
+      simp only [insertSpec, hcond]; rfl
+    refine ⟨t', R, _, hR, ?_, by rw [hspec, c1], c2, by rw [hspec], c3, hok', ?_, fun _ => rfl⟩
+    · simp only [Table.insert, e, hcond]; rfl
+    · intro h1 h2
+      exfalso; apply hcond
+      simp only [h1, hne, c3]
+      cases hh : t.indexes with
+      | nil => exact absurd hh h2
+      | cons _ _ => rfl
+
+
+theorem insertSpec_congr (cfg : Cfg) (columns indexes : List Nat) {R S : List (List Cell)} (h : List.Forall₂ KeyEq R S) (d : InsertData) :
+    (insertSpec cfg columns indexes R d).1 = (insertSpec cfg columns indexes S d).1 ∧
+    List.Forall₂ KeyEq (insertSpec cfg columns indexes R d).2 (insertSpec cfg columns indexes S d).2 := by
+  have hcg := insertS_congr columns h d
+  simp only [insertSpec]
+  split
+  · refine ⟨hcg.1, ?_⟩
+    simp only [hcg.1]
+    exact indexS_congr _ hcg.2
+  · exact hcg
+
 /-- one operation: the code's table and the specification's stay equal up to `==` -/
 theorem stepL_refines (cfg : Cfg) (t : Table) (a : AbsT) (op : LOp) (hwf : opWF cfg t op = true)
     (hrel : AbsT.eqv t.abs a) :
-    ∃ t' a', stepL cfg t op = .ok t' ∧ stepLS a op = .ok a' ∧ AbsT.eqv t'.abs a' := by
+    ∃ t' a', stepL cfg t op = .ok t' ∧ stepLS cfg a op = .ok a' ∧ AbsT.eqv t'.abs a' := by
   obtain ⟨hc, hi, hr⟩ := hrel
   simp only [Table.abs] at hc hi
   cases op with
   | copy => exact ⟨t, a, rfl, rfl, hc, hi, hr⟩
   | insert d =>
-    obtain ⟨t', R, hR, e, c1, c2, c3⟩ := insert_eq_spec' cfg t d hwf
+    obtain ⟨t', R, R', hR, e, c1, c2, c2', c3, _⟩ := insert_eq_spec' cfg t d hwf
     rw [abs_rows hR] at hr
-    have hcg := insertS_congr t.columns (forall2_keyEq_iff.mpr hr) d
+    have hcg := insertSpec_congr cfg t.columns t.indexes (forall2_keyEq_iff.mpr hr) d
     refine ⟨t', _, e, rfl, ?_, ?_, ?_⟩
-    · simp only [Table.abs, c1, ← hc]; exact hcg.1
+    · simp only [Table.abs, c1, ← hc, ← hi]; exact hcg.1
     · simp only [Table.abs, c3]; exact hi
-    · simp only [abs_rows c2, ← hc]; exact forall2_keyEq_iff.mp hcg.2
+    · simp only [abs_rows c2, ← hc, ← hi, c2']; exact forall2_keyEq_iff.mp hcg.2
   | index cols =>
     simp only [opWF] at hwf
     obtain ⟨t', perm, R, R', e, hR, hR', c1, c2, _, _, _, _, _, _, c13⟩ := index_spec' cfg t cols hwf
@@ -4913,7 +5328,7 @@ theorem stepL_refines (cfg : Cfg) (t : Table) (a : AbsT) (op : LOp) (hwf : opWF 
 
 /-- **refinement over arbitrary linear histories** -/
 theorem ops_refine' (cfg : Cfg) : ∀ (ops : List LOp) (t : Table) (a : AbsT), WFL cfg t ops = true → AbsT.eqv t.abs a →
-    ∃ t' a', runL cfg t ops = .ok t' ∧ runLS a ops = .ok a' ∧ AbsT.eqv t'.abs a'
+    ∃ t' a', runL cfg t ops = .ok t' ∧ runLS cfg a ops = .ok a' ∧ AbsT.eqv t'.abs a'
   | [], t, a, _, hrel => ⟨t, a, rfl, rfl, hrel⟩
   | op :: rest, t, a, hwf, hrel => by
     simp only [WFL, Bool.and_eq_true] at hwf
@@ -4924,12 +5339,420 @@ theorem ops_refine' (cfg : Cfg) : ∀ (ops : List LOp) (t : Table) (a : AbsT), W
     exact ⟨t', a', by simp only [runL, e1, e3], by simp only [runLS, e2, e4], hrel'⟩
 
 
+
+
+/-! ## The invariant of the repaired table: the rows are in index order -/
+
+/-- well-formed, the index columns are columns, and the rows the table shows are in index order
+(`Indexed`; nothing to ask when there is no index) -/
+structure Inv (t : Table) : Prop where
+  ok : t.OK (tableN t)
+  sub : ∀ c ∈ t.indexes, c ∈ t.columns
+  idx : Indexed t (tableN t)
+
+theorem indexed_nil (t : Table) (N : Nat) (h : t.indexes = []) : Indexed t N := by
+  refine ⟨by rw [h]; exact List.nodup_nil, ?_, ?_, ?_, ?_⟩
+  · intro d hd; rw [h] at hd; simp at hd
+  · intro i j _ _; rw [h]; rfl
+  · intro d hd; rw [h] at hd; simp at hd
+  · intro d hd; rw [h] at hd; simp at hd
+
+theorem indexedB_complete {t : Table} {N : Nat} (h : Indexed t N) : indexedB t N = true := by
+  simp only [indexedB, Bool.and_eq_true, decide_eq_true_eq, List.all_eq_true]
+  refine ⟨⟨⟨h.nodup, fun d hd => (isOk_iff _).mpr (h.stored d hd)⟩, ?_⟩, ?_⟩
+  · rw [allIn_iff]
+    intro j _ hj
+    rw [allIn_iff]
+    intro i _ hi
+    by_cases hij : i < j
+    · simp [hij, h.sorted i j hij hj]
+    · simp [hij]
+  · intro d hd
+    rw [allIn_iff]
+    intro x _ hx
+    simp only [Bool.and_eq_true]
+    refine ⟨by simpa using h.nn d hd x hx, ?_⟩
+    rw [allIn_iff]
+    intro y _ hy
+    exact h.cmp d hd x y hx hy
+
+theorem invB_sound {t : Table} (h : invB t = true) : Inv t := by
+  simp only [invB, Bool.and_eq_true, List.all_eq_true] at h
+  exact ⟨tableOKB_sound h.1.1, fun c hc => by simpa using h.1.2 c hc, indexedB_sound h.2⟩
+
+/-- a table without index satisfies the invariant -/
+theorem inv_of_no_index (t : Table) (hok : t.OK (tableN t)) (h : t.indexes = []) : Inv t :=
+  ⟨hok, fun c hc => by rw [h] at hc; simp at hc, indexed_nil t _ h⟩
+
+theorem Table.OK.tableN_eq {t : Table} {N : Nat} (h : t.OK N) (hne : t.data ≠ []) : tableN t = N := by
+  cases hd : t.data with
+  | nil => exact absurd hd hne
+  | cons q rest =>
+    obtain ⟨c, b⟩ := q
+    simp only [tableN, hd]
+    exact h.len (c, b) (by rw [hd]; simp)
+
+theorem kwOKIdxB_sound {cfg : Cfg} {t : Table} {m : Nat} {pos : Option Op}
+    {kw : Nat × Arg} (h : kwOKIdxB cfg t m pos kw = true) : KwOKIdx cfg t m pos kw := by
+  simp only [kwOKIdxB, Bool.and_eq_true] at h
+  obtain ⟨⟨h1, h2⟩, h3⟩ := h
+  refine ⟨by simpa using h1, ?_, ?_, ?_, ?_⟩
+  · intro a ha
+    rw [ha] at h2
+    simpa using h2
+  · intro op a hc
+    rw [hc] at h3
+    simp only [Bool.and_eq_true] at h3
+    exact h3.1
+  · intro hidx op a hc
+    rw [hc] at h3
+    have hcon : t.indexes.contains kw.1 = true := by simpa using hidx
+    simp only [Bool.and_eq_true, hcon, if_true, Bool.or_eq_true, List.all_eq_true, decide_eq_true_eq] at h3
+    obtain ⟨_, ⟨⟨⟨⟨a1, a2⟩, a3⟩, a4⟩, a5⟩, a6⟩ := h3
+    refine ⟨a1, fun v hv => by simpa using a2 v hv, ?_, a4, ?_, ?_⟩
+    · intro v hv i hi
+      exact (allIn_iff _ _ _).mp (a3 v hv) i (Nat.zero_le _) hi
+    · intro hop
+      subst hop
+      rcases a5 with (a5 | a5) | a5
+      · simp at a5
+      · exact Or.inl a5
+      · exact Or.inr (distinctKeysB_sound a5)
+    · intro hop v hv
+      rcases a6 with a6 | a6
+      · rcases hop with rfl | rfl | rfl | rfl <;> simp at a6
+      · simpa using a6 v hv
+  · intro hidx op a hc
+    rw [hc] at h3
+    have hcon : t.indexes.contains kw.1 = false := by simpa using hidx
+    simp only [Bool.and_eq_true, hcon] at h3
+    exact leGeOKB_sound h3.2
+
+/-- on a table that satisfies the invariant the data-only side conditions of `insert` are enough -/
+theorem insertWF_of_inv (cfg : Cfg) (t : Table) (d : InsertData) (hinv : Inv t) (h : insertOK cfg t d = true) :
+    insertWF cfg t d = true := by
+  simp only [insertOK, Bool.and_eq_true, Bool.or_eq_true] at h
+  obtain ⟨h1, h2⟩ := h
+  simp only [insertWF, h1, Bool.true_and]
+  by_cases hie : t.indexes.isEmpty = true
+  · simp [hie]
+  · rcases h2 with h2 | h2
+    · exact absurd h2 hie
+    · simp only [Bool.or_eq_true, Bool.and_eq_true]
+      right
+      exact ⟨⟨List.all_eq_true.mpr (fun c hc => by simpa using hinv.sub c hc), indexedB_complete hinv.idx⟩, h2⟩
+
+/-- **insert keeps the invariant** (repaired code) -/
+theorem inv_insert (cfg : Cfg) (hfix : cfg.resortInsert = true) (t : Table) (d : InsertData) (hinv : Inv t)
+    (h : insertOK cfg t d = true) : ∃ t', t.insert cfg d = .ok t' ∧ Inv t' := by
+  obtain ⟨t', R, R', hR, e, c1, c2, c2', c3, hok', hix', _⟩ := insert_eq_spec' cfg t d (insertWF_of_inv cfg t d hinv h)
+  refine ⟨t', e, ?_⟩
+  have hN := hok'.tableN_eq
+  refine ⟨by rw [hN]; exact hok'.ok, ?_, ?_⟩
+  · intro c hc
+    rw [c3] at hc
+    rw [c1]
+    have : (insertSpec cfg t.columns t.indexes R d).1 = (insertS t.columns R d).1 := by
+      simp only [insertSpec]; split <;> rfl
+    rw [this]
+    exact mem_insertS_cols _ _ _ _ (hinv.sub c hc)
+  · rw [hN]
+    by_cases hie : t.indexes = []
+    · exact indexed_nil _ _ (by rw [c3]; exact hie)
+    · exact hix' hfix hie
+
+
+/-- **index keeps / establishes the invariant**, and is the stable sort of the rows - also when the
+named columns are the current index (the call returns at once: the rows are in that order already) -/
+theorem index_step (cfg : Cfg) (t : Table) (cols : List Nat) (hinv : Inv t) (h : indexOK cfg t cols = true) :
+    ∃ t' R R', t.index cfg cols = .ok t' ∧ t.rows = .ok R ∧ t'.rows = .ok R' ∧ t'.columns = t.columns ∧
+      t'.indexes = effIndex cfg t cols ∧ (effIndex cfg t cols).Nodup ∧
+      R'.map (List.map Cell.key) = (indexS (idxPositions t.columns (effIndex cfg t cols)) R).map (List.map Cell.key) ∧
+      Inv t' := by
+  unfold indexOK at h
+  split at h
+  · simp at h
+  · rename_i c0 b rest hd
+    simp only [Bool.and_eq_true, decide_eq_true_eq, Bool.not_eq_true', List.all_eq_true] at h
+    obtain ⟨⟨⟨⟨⟨h1, h2⟩, h3⟩, h4⟩, h5⟩, h7⟩ := h
+    have hok := tableOKB_sound h2
+    have hne : cols ≠ [] := by intro e; simp [e] at h3
+    have hcne : t.columns ≠ [] := by intro e; simp [e] at h4
+    have hdne : t.data ≠ [] := by rw [hd]; simp
+    have hN : tableN t = b.length := by simp [tableN, hd]
+    have hm : t.m b.length = b.length := by simp [Table.m, h1, Sel.idx]
+    by_cases hsame : t.indexes = effIndex cfg t cols
+    · -- nothing to do
+      have hR := hok.rows_eq hcne
+      rw [hm] at hR
+      refine ⟨t, _, _, ?_, hR, hR, rfl, hsame, h5, ?_, hinv⟩
+      · simp only [Table.index, hsame, if_true]
+        split
+        · rfl
+        · split <;> rfl
+      · rw [indexS, sortBy_sorted_id]
+        rw [List.pairwise_iff_getElem]
+        intro i j hi hj hij
+        simp only [List.length_map, List.length_range] at hi hj
+        simp only [List.getElem_map, List.getElem_range]
+        rw [lexLt_rowAt t h1 _ (fun d hd' => by rw [← hsame] at hd'; exact hinv.sub d hd') i j, ← hsame]
+        have := hinv.idx.sorted i j hij (by rw [hN, hm]; exact hj)
+        exact this
+    · have hwf : indexWF cfg t cols = true := by
+        unfold indexWF
+        split
+        · rename_i h0; simp [hd] at h0
+        rename_i c1 b1 r1 hd1
+        rw [hd] at hd1
+        cases hd1
+        simp only [Bool.and_eq_true, decide_eq_true_eq, Bool.not_eq_true', List.all_eq_true]
+        exact ⟨⟨⟨⟨⟨⟨h1, h2⟩, h3⟩, h4⟩, h5⟩, hsame⟩, h7⟩
+      obtain ⟨t', perm, R, R', a1, a2, a3, a4, a5, _, _, _, _, _, _, a13⟩ := index_spec' cfg t cols hwf
+      have hcolsok : ∀ d ∈ effIndex cfg t cols, IdxColOK t b.length d := by
+        intro d hd'
+        obtain ⟨⟨c1, c2⟩, c3⟩ := h7 d hd'
+        obtain ⟨bd, hbd⟩ := (isOk_iff _).mp c2
+        refine ⟨⟨bd, hbd, hok.len _ (lookupCol_mem hbd)⟩, ?_, ?_⟩
+        · intro x y hx hy
+          have := (allIn_iff _ _ _).mp c3 x (Nat.zero_le _) hx
+          simp only [Bool.and_eq_true] at this
+          exact (allIn_iff _ _ _).mp this.2 y (Nat.zero_le _) hy
+        · intro x hx
+          have := (allIn_iff _ _ _).mp c3 x (Nat.zero_le _) hx
+          simp only [Bool.and_eq_true] at this
+          simpa [K0] using this.1
+      obtain ⟨t1, e1, hok1, hix1⟩ := index_indexed cfg t b.length hok h1 cols hne hdne h5 hsame hcolsok
+      obtain ⟨t2, _, e2, _, _, _, _, _, _, _, _, hkeys⟩ := index_data_spec cfg t b.length hok h1 cols hne hdne h5 hsame hcolsok
+      have ht1 : t1 = t' := by rw [a1] at e1; exact (Except.ok.inj e1).symm
+      have ht2 : t2 = t' := by rw [a1] at e2; exact (Except.ok.inj e2).symm
+      rw [ht1] at hok1 hix1
+      rw [ht2] at hkeys
+      have hdne' : t'.data ≠ [] := by
+        intro h0
+        have : t'.data.map (·.1) = [] := by rw [h0]; rfl
+        rw [hkeys] at this
+        exact hdne (List.map_eq_nil_iff.mp this)
+      have hN' := hok1.tableN_eq hdne'
+      refine ⟨t', R, R', a1, a2, a3, a4, a5, h5, a13, ⟨by rw [hN']; exact hok1, ?_, by rw [hN']; exact hix1⟩⟩
+      intro c hc
+      rw [a5] at hc
+      rw [a4]
+      simpa using (h7 c hc).1.1
+
+/-- **where with keywords on a table that satisfies the invariant** is the plain filter, and the result
+satisfies the invariant -/
+theorem whereK_step (cfg : Cfg) (t : Table) (pos : Option Op) (kws : List (Nat × Arg)) (hinv : Inv t)
+    (R rs : List (List Cell)) (h : whereOK cfg t pos kws = true) (hR : t.rows = .ok R)
+    (hspec : whereS { columns := t.columns, rows := R } (kws.map (condOf pos)) = .ok rs) :
+    ∃ t', t.pwhere cfg Option.none pos kws = .ok t' ∧ t'.rows = .ok rs ∧
+      t'.columns = t.columns ∧ t'.indexes = t.indexes ∧ Inv t' := by
+  unfold whereOK at h
+  split at h
+  · simp at h
+  · rename_i c0 b rest hd
+    simp only [Bool.and_eq_true, Bool.not_eq_true', List.all_eq_true] at h
+    obtain ⟨⟨⟨h1, h2⟩, h3⟩, h4⟩ := h
+    have hN : tableN t = b.length := by simp [tableN, hd]
+    have hne : kws ≠ [] := by intro he; simp [he] at h2
+    have hix := hinv.idx
+    rw [hN] at hix
+    obtain ⟨t', a1, a2, a3, a4, a5, a6, a7⟩ := where_indexed_data' cfg t b.length (tableOKB_sound h1) hix pos kws hne
+      (fun kw hk => kwOKIdxB_sound (h4 kw hk)) (noLeakB_sound h3) R rs hR hspec
+    have hN' : tableN t' = b.length := by simp [tableN, a7, hd]
+    refine ⟨t', a1, a2, a3, a4, ⟨by rw [hN']; exact a5, ?_, by rw [hN']; exact a6⟩⟩
+    intro c hc
+    rw [a4] at hc; rw [a3]; exact hinv.sub c hc
+
+/-- **where with a row predicate** keeps the invariant -/
+theorem whereP_step (cfg : Cfg) (t : Table) (p : RowPred) (hinv : Inv t)
+    (h : ((match t.data with | [] => false | (_, b) :: _ => tableOKB t b.length) && !t.columns.isEmpty) = true) :
+    ∃ t' R, t.rows = .ok R ∧ t.pwhere cfg (some p) Option.none [] = .ok t' ∧ t'.rows = .ok (R.filter p.eval) ∧
+      t'.columns = t.columns ∧ t'.indexes = t.indexes ∧ Inv t' := by
+  simp only [Bool.and_eq_true, Bool.not_eq_true'] at h
+  obtain ⟨h1, h2⟩ := h
+  have hcne : t.columns ≠ [] := by intro e; simp [e] at h2
+  cases hd : t.data with
+  | nil => simp [hd] at h1
+  | cons q rest =>
+    obtain ⟨c0, b⟩ := q
+    simp only [hd] at h1
+    have hok := tableOKB_sound h1
+    have hR := hok.rows_eq hcne
+    have hN : tableN t = b.length := by simp [tableN, hd]
+    have hix := hinv.idx
+    rw [hN] at hix
+    obtain ⟨t', e, c1, c2, c3, c4, c5, selection, s1, s2, s3⟩ := where_pred_view' cfg t b.length hok hcne p Option.none [] _ hR
+    have hN' : tableN t' = b.length := by simp [tableN, c5, hd]
+    refine ⟨t', _, hR, e, c1, c2, c3, ⟨by rw [hN']; exact c4, ?_, ?_⟩⟩
+    · intro c hc
+      rw [c3] at hc; rw [c2]; exact hinv.sub c hc
+    · rw [hN']
+      have : t' = { t with sel := t'.sel } := by
+        cases t'; simp_all
+      rw [this]
+      exact indexed_view t b.length hok hix t'.sel selection s1 s2 s3
+
+
+/-- one operation on a table that satisfies the invariant: the code's table and the specification's
+stay equal up to `==`, and the invariant holds afterwards.  The side conditions `opOK` do not mention
+the state of the index. -/
+theorem stepL_inv_refines (cfg : Cfg) (hfix : cfg.resortInsert = true) (t : Table) (a : AbsT) (op : LOp)
+    (hinv : Inv t) (hok : opOK cfg t op = true) (hrel : AbsT.eqv t.abs a) :
+    ∃ t' a', stepL cfg t op = .ok t' ∧ stepLS cfg a op = .ok a' ∧ AbsT.eqv t'.abs a' ∧ Inv t' := by
+  cases op with
+  | copy => exact ⟨t, a, rfl, rfl, hrel, hinv⟩
+  | insert d =>
+    have hwf : opWF cfg t (.insert d) = true := insertWF_of_inv cfg t d hinv hok
+    obtain ⟨t', a', e1, e2, hr⟩ := stepL_refines cfg t a (.insert d) hwf hrel
+    obtain ⟨t'', e3, hi⟩ := inv_insert cfg hfix t d hinv hok
+    have : t'' = t' := by
+      simp only [stepL] at e1
+      rw [e1] at e3; exact (Except.ok.inj e3).symm
+    subst this
+    exact ⟨t'', a', e1, e2, hr, hi⟩
+  | index cols =>
+    obtain ⟨hc, hi, hr⟩ := hrel
+    simp only [Table.abs] at hc hi
+    obtain ⟨t', R, R', e, hR, hR', c1, c2, hnd, c13, hinv'⟩ := index_step cfg t cols hinv hok
+    rw [abs_rows hR] at hr
+    have hix := effIndex_eq_spec hnd
+    refine ⟨t', _, e, rfl, ⟨?_, ?_, ?_⟩, hinv'⟩
+    · simp only [Table.abs, c1]; exact hc
+    · simp only [Table.abs, c2, ← hc]; exact hix
+    · simp only [abs_rows hR', ← hc, ← hix, c13]
+      exact forall2_keyEq_iff.mp (indexS_congr _ (forall2_keyEq_iff.mpr hr))
+  | whereK pos kws =>
+    obtain ⟨hc, hi, hr⟩ := hrel
+    simp only [Table.abs] at hc hi
+    simp only [opOK, Bool.and_eq_true] at hok
+    obtain ⟨h1, h2⟩ := hok
+    cases hR : t.rows with
+    | error e => simp [hR] at h2
+    | ok R =>
+      simp only [hR] at h2
+      obtain ⟨rs, hrs⟩ := (isOk_iff _).mp h2
+      obtain ⟨t', e, c1, c2, c3, hinv'⟩ := whereK_step cfg t pos kws hinv R rs h1 hR hrs
+      rw [abs_rows hR] at hr
+      simp only [whereS] at hrs
+      rcases filterRows_congr (fun r => satRow t.columns r (kws.map (condOf pos))) (fun r => satRow t.columns r (kws.map (condOf pos)))
+        (forall2_keyEq_iff.mpr hr) (fun r s hrs' => satRow_congr t.columns hrs' _) with ⟨e', e1, _⟩ | ⟨rs1, ss, e1, e2, hf⟩
+      · rw [hrs] at e1; exact absurd e1 (by simp)
+      · rw [hrs] at e1
+        have : rs1 = rs := (Except.ok.inj e1).symm
+        subst this
+        refine ⟨t', { a with rows := ss }, e, ?_, ⟨?_, ?_, ?_⟩, hinv'⟩
+        · simp only [stepLS, whereS, ← hc, e2]
+        · simp only [Table.abs, c2]; exact hc
+        · simp only [Table.abs, c3]; exact hi
+        · simp only [abs_rows c1]; exact forall2_keyEq_iff.mp hf
+  | whereP p =>
+    obtain ⟨hc, hi, hr⟩ := hrel
+    simp only [Table.abs] at hc hi
+    obtain ⟨t', R, hR, e, c1, c2, c3, hinv'⟩ := whereP_step cfg t p hinv hok
+    rw [abs_rows hR] at hr
+    refine ⟨t', { a with rows := a.rows.filter p.eval }, e, rfl, ⟨?_, ?_, ?_⟩, hinv'⟩
+    · simp only [Table.abs, c2]; exact hc
+    · simp only [Table.abs, c3]; exact hi
+    · simp only [abs_rows c1]
+      exact forall2_keyEq_iff.mp (filter_congr _ _ (forall2_keyEq_iff.mpr hr) (fun r s h => rowPred_congr h p))
+
+/-- **refinement and invariant over arbitrary linear histories** (repaired code): from a table that
+satisfies the invariant, every history whose operations meet their data-only side conditions runs
+without error, ends in the table the specification machine computes (up to `==`), and that table
+satisfies the invariant -/
+theorem ops_inv_refine' (cfg : Cfg) (hfix : cfg.resortInsert = true) :
+    ∀ (ops : List LOp) (t : Table) (a : AbsT), Inv t → OKL cfg t ops = true → AbsT.eqv t.abs a →
+    ∃ t' a', runL cfg t ops = .ok t' ∧ runLS cfg a ops = .ok a' ∧ AbsT.eqv t'.abs a' ∧ Inv t'
+  | [], t, a, hinv, _, hrel => ⟨t, a, rfl, rfl, hrel, hinv⟩
+  | op :: rest, t, a, hinv, hwf, hrel => by
+    simp only [OKL, Bool.and_eq_true] at hwf
+    obtain ⟨h1, h2⟩ := hwf
+    obtain ⟨t1, a1, e1, e2, hrel1, hinv1⟩ := stepL_inv_refines cfg hfix t a op hinv h1 hrel
+    simp only [e1] at h2
+    obtain ⟨t', a', e3, e4, hrel', hinv'⟩ := ops_inv_refine' cfg hfix rest t1 a1 hinv1 h2 hrel1
+    exact ⟨t', a', by simp only [runL, e1, e3], by simp only [runLS, e2, e4], hrel', hinv'⟩
+
+/-- the invariant holds in every reachable state -/
+theorem inv_reachable' (cfg : Cfg) (hfix : cfg.resortInsert = true) (t0 : Table) (ops : List LOp) (hinv : Inv t0)
+    (hok : OKL cfg t0 ops = true) : ∃ t, runL cfg t0 ops = .ok t ∧ Inv t := by
+  obtain ⟨t, _, e, _, _, hi⟩ := ops_inv_refine' cfg hfix ops t0 t0.abs hinv hok ⟨rfl, rfl, rfl⟩
+  exact ⟨t, e, hi⟩
+
+/-- **indexed query = full scan in every reachable state**: no hypothesis about the state of the index -/
+theorem where_reachable' (cfg : Cfg) (hfix : cfg.resortInsert = true) (t0 : Table) (ops : List LOp) (hinv : Inv t0)
+    (hok : OKL cfg t0 ops = true) (t : Table) (hrun : runL cfg t0 ops = .ok t)
+    (pos : Option Op) (kws : List (Nat × Arg)) (R rs : List (List Cell)) (hw : whereOK cfg t pos kws = true)
+    (hR : t.rows = .ok R) (hspec : whereS { columns := t.columns, rows := R } (kws.map (condOf pos)) = .ok rs) :
+    ∃ t', t.pwhere cfg Option.none pos kws = .ok t' ∧ t'.rows = .ok rs ∧
+      t'.columns = t.columns ∧ t'.indexes = t.indexes := by
+  obtain ⟨t1, e, hi⟩ := inv_reachable' cfg hfix t0 ops hinv hok
+  have : t1 = t := by rw [hrun] at e; exact (Except.ok.inj e).symm
+  subst this
+  obtain ⟨t', a, b, c, d, _⟩ := whereK_step cfg t1 pos kws hi R rs hw hR hspec
+  exact ⟨t', a, b, c, d⟩
+
+
+/-- without an index to keep (or without the repair) `insert` is the plain append -/
+theorem insert_eq_insertRaw (cfg : Cfg) (t t' : Table) (d : InsertData)
+    (hni : cfg.resortInsert = false ∨ t.indexes = []) (e : t.insertRaw cfg d = .ok t') (hidx : t'.indexes = t.indexes) :
+    t.insert cfg d = .ok t' := by
+  have : (cfg.resortInsert && !d.isEmpty && !t'.indexes.isEmpty) = false := by
+    rcases hni with h | h
+    · simp [h]
+    · simp [hidx, h]
+  simp only [Table.insert, e, this]; rfl
+
+theorem insert_rows_plain' (cfg : Cfg) (t : Table) (N : Nat) (hok : t.OK N) (hsel : t.sel = .all)
+    (hnd : t.columns.Nodup) (hcne : t.columns ≠ []) (hkeys : ∀ p ∈ t.data, p.1 ∈ t.columns)
+    (hni : cfg.resortInsert = false ∨ t.indexes = [])
+    (r : List Cell) (rs : List (List Cell)) (hlen : ∀ x ∈ r :: rs, x.length = t.columns.length)
+    (R : List (List Cell)) (hR : t.rows = .ok R) :
+    ∃ t', t.insert cfg (.rows (r :: rs)) = .ok t' ∧ t'.rows = .ok (R ++ (r :: rs)) ∧
+      t'.columns = t.columns ∧ t'.indexes = t.indexes ∧ t'.OK (N + (r :: rs).length) := by
+  obtain ⟨t', e, a, b, c, d, _⟩ := insert_rows_spec' cfg t N hok hsel hnd hcne hkeys r rs hlen R hR
+  exact ⟨t', insert_eq_insertRaw cfg t t' _ hni e c, a, b, c, d⟩
+
+theorem insert_mapping_plain' (cfg : Cfg) (t : Table) (N : Nat) (h : InsertOK t N) (hni : cfg.resortInsert = false ∨ t.indexes = [])
+    (q0 : Nat × List Cell) (cs : List (Nat × List Cell))
+    (hk : ∀ q ∈ q0 :: cs, q.2.length = q0.2.length)
+    (hcne : t.columns ++ newColsOf t.columns ((q0 :: cs).map (·.1)) ≠ [])
+    (R : List (List Cell)) (hR : t.rows = .ok R) :
+    ∃ t', t.insert cfg (.cols (q0 :: cs)) = .ok t' ∧ t'.columns = (insertColsS t.columns R (q0 :: cs) q0.2.length).1 ∧
+      t'.rows = .ok (insertColsS t.columns R (q0 :: cs) q0.2.length).2 ∧ t'.indexes = t.indexes ∧ InsertOK t' (N + q0.2.length) := by
+  obtain ⟨t', e, a, b, c, d, _⟩ := insert_mapping_rows' cfg t N h q0 cs hk hcne R hR
+  exact ⟨t', insert_eq_insertRaw cfg t t' _ hni e c, a, b, c, d⟩
+
+theorem insert_dicts_plain' (cfg : Cfg) (t : Table) (N : Nat) (h : InsertOK t N) (hni : cfg.resortInsert = false ∨ t.indexes = [])
+    (d0 : List (Nat × Cell)) (ds : List (List (Nat × Cell)))
+    (hpad : cfg.dictLen = true ∨ dictsToCols (d0 :: ds) ≠ [])
+    (hcne : t.columns ++ newColsOf t.columns ((d0 :: ds).flatMap (fun d => d.map (·.1))) ≠ [])
+    (R : List (List Cell)) (hR : t.rows = .ok R) :
+    ∃ t', t.insert cfg (.dicts (d0 :: ds)) = .ok t' ∧ t'.columns = (insertDictsS t.columns R (d0 :: ds)).1 ∧
+      t'.rows = .ok (insertDictsS t.columns R (d0 :: ds)).2 ∧ t'.indexes = t.indexes ∧ InsertOK t' (N + (d0 :: ds).length) := by
+  obtain ⟨t', e, a, b, c, d, _⟩ := insert_dicts_rows' cfg t N h d0 ds hpad hcne R hR
+  exact ⟨t', insert_eq_insertRaw cfg t t' _ hni e c, a, b, c, d⟩
+
+/-- with the per-cell repair `match` is `matchCell` on every column, mixed or not -/
+theorem where_match_per_cell' (cfg : Cfg) (hfix : cfg.matchPerCell = true) (col : List Cell) (arg : Cell) :
+    compareScan cfg col .mtch (.scalar arg) = scanFilter 0 col (fun c => .ok (matchCell arg c)) := by
+  simp only [compareScan, matchScan, hfix, if_true]
+
+
+/-- one operation keeps the invariant -/
+theorem inv_step' (cfg : Cfg) (hfix : cfg.resortInsert = true) (t : Table) (op : LOp) (hinv : Inv t)
+    (hok : opOK cfg t op = true) : ∃ t', stepL cfg t op = .ok t' ∧ Inv t' := by
+  obtain ⟨t', _, e, _, _, hi⟩ := stepL_inv_refines cfg hfix t t.abs op hinv hok ⟨rfl, rfl, rfl⟩
+  exact ⟨t', e, hi⟩
+
 /-! ## `match` on a homogeneous column -/
 
 theorem where_match_eq_spec' (cfg : Cfg) (col : List Cell) (arg : Cell) (harg : isNumber arg = true ∨ isStr arg = true)
     (hh : homogB col = true) (hne : cfg.matchEmpty = true ∨ col ≠ []) :
     compareScan cfg col .mtch (.scalar arg) = scanFilter 0 col (fun c => .ok (matchCell arg c)) := by
   simp only [compareScan, matchScan]
+  by_cases hpc : cfg.matchPerCell = true
+  · simp only [hpc, if_true]
+  simp only [hpc]
   cases col with
   | nil =>
     rcases hne with h | h
